@@ -88,6 +88,13 @@ def _product(lists):
 
 
 def cases(tier, seed):
+    only = os.environ.get("VERIF_C18_KINDS")  # development knob: comma separated case kinds
+    for c in _cases(tier, seed):
+        if only is None or c["gen"] in only.split(","):
+            yield c
+
+
+def _cases(tier, seed):
     quick = tier == "quick"
     out = []
     # exhaustive leaf-labelled topologies: one case per top-level partition
@@ -110,9 +117,10 @@ def cases(tier, seed):
             yield {"gen": "aln", "k": k}
         else:
             yield {"gen": "big", "k": k} if (k // 20) % 4 == 0 else {"gen": "msp", "k": k}
-        e = next(enum_iter, None)
-        if e is not None and (quick or k % 4 == 0):
-            yield e
+        if quick or k % 4 == 0:
+            e = next(enum_iter, None)
+            if e is not None:
+                yield e
         k += 1
     for e in enum_iter:
         yield e
